@@ -303,7 +303,8 @@ def oracle(sm: dict):
             elif notifs[0] not in allowed_set:
                 viols.append((f'wrong-code:{cls}:{state}:{notifs[0][0]}/{notifs[0][1]}', f'{fault} in {state}: NOTIFICATION {notifs[0]} but the RFC class allows {sorted(allowed_set)}'))
         else:
-            if ended and not may_continue and allowed_set:
+            if ended and allowed_set:
+                # whether or not the message could have been ignored, a session ExaBGP ends because of it ends with a NOTIFICATION
                 viols.append((f'closed-without-notification:{cls}:{state}', f'{fault} in {state}: connection closed without the NOTIFICATION {sorted(allowed_set)}'))
             elif ended and may_continue and not allowed_set:
                 viols.append((f'closed-on-valid:{cls}:{state}', f'{fault} in {state} is legal there but the connection was closed'))
